@@ -70,7 +70,7 @@ class Gates:
                 if o and o.get("kind") == "call":
                     callee = atomics.callee_of(o["term"])
                     if callee in self.loaders:
-                        self.loaders[b["key"]] = self.loaders[callee]
+                        self.loaders[b["key"]] = atomics.resolve_ordering(self.loaders[callee], B, o["term"])
                         changed = True
         for b in F.body_list:
             B = cfg.Body(b)
@@ -89,7 +89,7 @@ class Gates:
             if inline:
                 self.gates[b["key"]] = (src_origin[1], None)  # `count.load(ord) == 1` written out in the gate itself
             elif src_origin in self.loaders:
-                self.gates[b["key"]] = (self.loaders[src_origin], None)
+                self.gates[b["key"]] = (atomics.resolve_ordering(self.loaders[src_origin], B, self._last_cmp_term), None)
 
     def _match_gate(self, B):
         """`fn is_unique(&self) -> bool { matches!(self.count(), 1) }`: the result is assigned `true` exactly behind the arm for the
@@ -111,7 +111,7 @@ class Gates:
             t = o["term"]
             callee = atomics.callee_of(t)
             if callee in self.loaders:
-                ordr = self.loaders[callee]
+                ordr = atomics.resolve_ordering(self.loaders[callee], B, t)
             elif atomics.atomic_class(t) == model.ATOMIC_LOAD and atomics.receiver_is_count(F, B, t):
                 ordr = atomics.ordering_of(B, t["args"][1]) if len(t["args"]) > 1 else None
             else:
@@ -159,6 +159,7 @@ class Gates:
             return None
         t = o["term"]
         callee = atomics.callee_of(t)
+        self._last_cmp_term = t
         if callee in self.loaders:
             return rv["op"], callee, k
         if atomics.atomic_class(t) == model.ATOMIC_LOAD and atomics.receiver_is_count(self.F, B, t):
@@ -392,7 +393,7 @@ def _direct_gate_edges(F, G, B):
                         out.append((bi, tgt, roots, G.gates[callee][0]))
             elif not c["neg"] and (callee in G.loaders or (atomics.atomic_class(c["call"]) == model.ATOMIC_LOAD and atomics.receiver_is_count(F, B, c["call"]))):
                 # `match Arc::count(&this) { 1 => .., _ => .. }`: a switch on the loaded count itself, the arm for the value 1
-                ordr = G.loaders[callee] if callee in G.loaders else atomics.ordering_of(B, c["call"]["args"][1])
+                ordr = atomics.resolve_ordering(G.loaders[callee], B, c["call"]) if callee in G.loaders else atomics.ordering_of(B, c["call"]["args"][1])
                 roots = set()
                 for a in c["call"]["args"][:1]:
                     pl = operand_place(a)
@@ -414,7 +415,7 @@ def _direct_gate_edges(F, G, B):
             callee = atomics.callee_of(t)
             ordr = None
             if callee in G.loaders:
-                ordr = G.loaders[callee]
+                ordr = atomics.resolve_ordering(G.loaders[callee], B, t)
             elif atomics.atomic_class(t) == model.ATOMIC_LOAD and atomics.receiver_is_count(F, B, t):
                 ordr = atomics.ordering_of(B, t["args"][1])
             else:
@@ -735,6 +736,9 @@ def rule_gate(ctx, rep):
                     if fresh_value(F, E, B, a):
                         rep.ok("R-GATE", ik, "argument is fresh / sole owner by type", cfg=tag)
                         continue
+                    if _holds_fresh_block(F, E, B, a):
+                        rep.ok("R-GATE", ik, "argument is a private construction guard around a block straight from the allocator (no handle exists yet)", cfg=tag)
+                        continue
                     pl = operand_place(a)
                     if pl is not None:
                         o = B.origin(a)
@@ -926,6 +930,30 @@ def _is_arc_to_unique_cast(F, B, rv):
         return False
     st = F.ty(pl["ty"])
     return st["k"] in ("ptr", "ref") and F.handle_name(st["t"]) == "Arc"
+
+
+def _holds_fresh_block(F, E, B, op):
+    """The operand is (a reference to) a value of a private non-handle type that was built - by an aggregate or by a private
+    constructor function - around a pointer that comes straight from an allocation helper: `SliceFill::new(allocate(len), header)`."""
+    from .. import symx
+
+    e = symx.expr(F, B, op)
+    while e[0] in ("addr", "cast"):
+        e = e[1] if e[0] == "addr" else e[2]
+    parts = ()
+    if e[0] == "call" and e[1] in F.bodies and not balance.is_api(F, F.body(e[1])):
+        out = F.body(e[1]).get("output")
+        ot = F.ty(out) if out is not None else {}
+        if ot.get("k") == "adt" and ot.get("local") and F.path_to_handle.get(ot["path"]) is None and not (F.adts.get(ot["path"]) or {}).get("reachable", True):
+            parts = e[3]
+    elif e[0] == "agg" and e[1] == "adt" and e[2] in F.adts and F.path_to_handle.get(e[2]) is None and not F.adts[e[2]].get("reachable", True):
+        parts = e[4]
+    for x in parts:
+        while x[0] == "cast":
+            x = x[2]
+        if x[0] == "call" and (model.classify(x[1])[0] == model.ALLOC or (x[1] in F.bodies and _is_alloc_helper(E, x[1]))):
+            return True
+    return False
 
 
 def _fresh_pointer(F, E, B, pl):
